@@ -18,6 +18,7 @@ def run(R):
         reg.REG[n].transparent_in_callers = True
     names = common.names_for(R, 'C15')
     obs = check.verify_functions(R, names)
+    obs += common.avr_pass(R, names)
     obs += common.lemma_obligations(R, 'C15')
     check.discharge(R, obs, timeout=120)
     R.assumptions += [
